@@ -381,8 +381,12 @@ func orAlternatives(t *rapid.T, n *model.Node, o ScalarOpts, label string) []mod
 			} else {
 				alts = append(alts, model.Str(f))
 			}
-		case 5: // a rule-set that is an enum
-			alts = append(alts, model.Set(model.R("type", model.Str("enum")), model.R("enum", model.List(enumItems(t, n.Lit, n.Kind, l)...))))
+		case 5: // a rule-set that is an enum (now and then also pinned to the example)
+			rs := []model.Rule{model.R("type", model.Str("enum")), model.R("enum", model.List(enumItems(t, n.Lit, n.Kind, l)...))}
+			if n.Kind != "null" && rapid.IntRange(0, 3).Draw(t, l+"enumconst") == 0 {
+				rs = append(rs, model.R("const", model.Bool(rapid.IntRange(0, 3).Draw(t, l+"enumconstv") != 0)))
+			}
+			alts = append(alts, model.Set(rs...))
 		case 0: // rule-set of the example's kind with rules near the example
 			rs := []model.Rule{model.R("type", model.Str(n.Kind))}
 			switch n.Kind {
